@@ -22,6 +22,11 @@ class C02(WigBedProp):
             r = rng.fork(k)
             names, sizes, data, tags = bbgen.gen_bed_input(r)
             o = bbgen.gen_options(r, tier)
+            if r.chance(1, 12):
+                # a zero-length entry at position 0: the reader takes (0,0) for padding (D5)
+                nm = r.choice(names)
+                data[nm].insert(0, (0, 0, "zero"))
+                tags.add("entry_0_0")
             lines = [bbgen.opt_line(o)] + bbgen.bed_lines(names, sizes, data)
             a = r.choice(AUTOSQLS)
             if a == "BED3":
@@ -60,6 +65,15 @@ class C02(WigBedProp):
         if a and bbgen.first_line(il, "AUTOSQL") != "AUTOSQL " + a[0][1]:
             return "the supplied autoSql text is not returned verbatim"
         return bbgen.oracle_bed_queries(case, il, exact_full_span=True)
+
+
+    def known_match(self, finding, case, reason):
+        if finding.get("id") == "D5-bed-entry-0-0":
+            order, sizes, data = bbgen.case_input_bed(case)
+            has00 = [n for n in order if any(s == 0 and e == 0 for (s, e, _) in data[n])]
+            # the reader refuses the block that holds a (0,0) record: queries on that chromosome fail with InvalidFile
+            return bool(has00) and ("failed: `A" in reason and "InvalidFile" in reason) and any(f"query {n}:" in reason for n in has00)
+        return False
 
 
 PROP = C02()
